@@ -82,6 +82,30 @@ def aqtMatrix (name : String) (θ φ : Float) : Option (Array CFloat) :=
   | "Z" => some #[CFloat.cis (-h), 0, 0, CFloat.cis h]
   | _ => none
 
+/-- Kronecker product of an `n×n` and an `m×m` row-major matrix -/
+def kron (n m : Nat) (a b : Array CFloat) : Array CFloat :=
+  Array.ofFn (n := (n * m) * (n * m)) (fun p =>
+    let r := p.val / (n * m); let c := p.val % (n * m)
+    a.getD ((r / m) * n + c / m) 0 * b.getD ((r % m) * m + c % m) 0)
+
+def pauliMat (c : Char) : Array CFloat :=
+  match c with
+  | 'X' => #[0, 1, 1, 0]
+  | 'Y' => #[0, ⟨0, -1⟩, ⟨0, 1⟩, 0]
+  | 'Z' => #[1, 0, 0, -1]
+  | _ => #[1, 0, 0, 1]
+
+/-- IonQ `pauliexp` with one term: `exp(−i·time·coefficient·P)`; the term string is little-endian with respect to the
+target list (its last character acts on the first target), as the IonQ API orders qubits -/
+def pauliExpMatrix (term : String) (angle : Float) : Array CFloat :=
+  let chars := term.toList.reverse          -- chars[i] acts on targets[i]
+  let k := chars.length
+  let p := chars.foldl (fun (acc : Nat × Array CFloat) ch => (acc.1 * 2, kron acc.1 2 acc.2 (pauliMat ch))) (1, #[1])
+  let dim := 2 ^ k
+  let c : CFloat := ⟨Float.cos angle, 0⟩
+  let mis : CFloat := ⟨0, -(Float.sin angle)⟩
+  Array.ofFn (n := dim * dim) (fun q => (if q.val / dim = q.val % dim then c else 0) + mis * p.2.getD q.val 0)
+
 /-! ### little-endian outcome integers (IonQ histograms)
 
 IonQ reports an outcome as an integer whose bit `k` (least significant = 0) is the value of qubit `k`. -/
